@@ -3,6 +3,7 @@ import ClaripyProofs.Lemmas.VSA.AddSub
 import ClaripyProofs.Lemmas.VSA.Lub
 import ClaripyProofs.Lemmas.VSA.Members
 import ClaripyProofs.Lemmas.VSA.MinMax
+import ClaripyProofs.Lemmas.VSA.EvalExact
 /-!
 # C22 — joins, meets, widening and queries agree with the members
 
@@ -77,6 +78,22 @@ example : (SI.new 4 5 13 7).members = [13, 2, 7] ∧ (SI.new 4 5 13 7).cardinali
     (SI.new 4 5 13 7).solution 2 = .ok true ∧ (SI.new 4 5 13 7).solution 3 = .ok false := by decide
 
 /-! ## widen — false on the code (findings C22-widen-lower, -wrap, -upper, -unaligned) -/
+
+/-! ## eval -/
+
+/-- `eval(n)` (unsigned) returns exactly the first `n` entries of the member list: no repetition, nothing that is not a
+member, and all members once `n` reaches the cardinality -/
+theorem C22_eval_exact (s : SI) (n : Nat) (l : List Int) (hs : s.WF) (hnb : s.bottom = false) (h : s.eval n false = .ok l) :
+    l = (s.members.take n).map (fun (v : Nat) => (v : Int)) ∧
+    (s.members.length ≤ n → ∀ x, s.mem x → (x : Int) ∈ l) := by
+  have he := eval_exact s n l hs hnb h
+  refine ⟨he, ?_⟩
+  intro hn x hx
+  rw [he, List.take_of_length_le hn]
+  exact List.mem_map.2 ⟨x, (mem_members s hs x).2 hx, rfl⟩
+
+/-- non-vacuity: a wrapping interval, fewer values requested than there are -/
+example : (SI.new 4 5 13 7).eval 2 false = .ok [13, 2] ∧ (SI.new 4 5 13 7).eval 9 false = .ok [13, 2, 7] := by decide
 
 /-! ## min / max -/
 
